@@ -30,7 +30,17 @@ class MoveSession:
     def __init__(self, desc):
         self.w = gridw.RealWorld(desc)
         kw = dict(grid=self.w.grid, agents=self.w.agents)
+        if desc.get("grid0"):
+            # a history: the actors are built over ANOTHER grid (another shape), look at it, and are then given the
+            # real one through the public `grid` setter of the component: bounds are those of the grid they have now
+            from abmarl.sim.gridworld.grid import Grid
+            g0 = Grid(int(desc["grid0"][0]), int(desc["grid0"][1]))
+            kw["grid"] = g0
         self.actors = {"move": MoveActor(**kw), "cross": CrossMoveActor(**kw), "drift": DriftMoveActor(**kw)}
+        if desc.get("grid0"):
+            for act in self.actors.values():
+                _ = (act.rows, act.cols)
+                act.grid = self.w.grid
         self.w.finish()
         self.stat = self.w.stat_wire()
 
@@ -202,6 +212,9 @@ class MoveProp(core.Prop):
         nworlds = 300 if quick else 10000
         for _ in range(nworlds):
             desc = gridw.maybe_late(rng, gridw.maybe_enc0(rng, gridw.gen_world(rng, kinds=mover_kinds), 0.08), 0.08)
+            if rng.random() < 0.12:
+                desc["grid0"] = [max(1, desc["rows"] + rng.choice([-2, -1, 1, 2, 3])),
+                                 max(1, desc["cols"] + rng.choice([-2, -1, 1, 2, 3]))]
             try:
                 sess = MoveSession(desc)
             except ValueError:
@@ -286,6 +299,13 @@ def _retable(rng, sess, desc):
     sess.stat = sess.w.stat_wire()
     d2 = dict(desc, overlap=new)
     d2.setdefault("overlap0", desc["overlap"])
+    if rng.random() < 0.5:
+        # ... followed by an assignment the setter rejects (gridw.bad_table): the table just installed stays in force
+        try:
+            grid.overlapping = gridw.bad_table(ov)
+        except (AssertionError, TypeError, ValueError, KeyError, AttributeError):
+            pass
+        d2["bad_table"] = True
     return d2
 
 
